@@ -400,7 +400,9 @@ pub enum ImgView {
 
 #[derive(Clone, Debug, Serialize, Deserialize)]
 pub enum Case {
-    Face { fg: Option<[u8; 4]>, bg: Option<[u8; 4]>, flags: u8, underline: u8 },
+    /// `underline_first` (0 = none): an underline style combined into the set BEFORE `underline`
+    /// with the non-assigning `|`, which replaces the style (the set is built in steps)
+    Face { fg: Option<[u8; 4]>, bg: Option<[u8; 4]>, flags: u8, underline: u8, #[serde(default)] underline_first: u8 },
     Size { height: u64, width: u64 },
     Chord { text: String },
     /// pixels as 0xRRGGBBAA; for Full/Crop `data.len() == height*width`
@@ -466,7 +468,7 @@ fn stage<T>(stage: &str, ctx: &dyn Fn() -> String, f: impl FnOnce() -> T) -> Res
 // ---------------------------------------------------------------------------------------
 // part (a): round trips
 
-fn build_face(fg: Option<[u8; 4]>, bg: Option<[u8; 4]>, flags: u8, underline: u8) -> Face {
+fn build_face(fg: Option<[u8; 4]>, bg: Option<[u8; 4]>, flags: u8, underline: u8, underline_first: u8) -> Face {
     // non-assigning operators only: `|=` on FaceAttrs is a raw bit OR
     let mut attrs = FaceAttrs::EMPTY;
     for (bit, attr) in [
@@ -480,22 +482,23 @@ fn build_face(fg: Option<[u8; 4]>, bg: Option<[u8; 4]>, flags: u8, underline: u8
             attrs = attrs | attr;
         }
     }
-    attrs = attrs
-        | match underline {
-            1 => FaceAttrs::UNDERLINE,
-            2 => FaceAttrs::UNDERLINE_DOUBLE,
-            3 => FaceAttrs::UNDERLINE_CURLY,
-            4 => FaceAttrs::UNDERLINE_DOTTED,
-            5 => FaceAttrs::UNDERLINE_DASHED,
-            _ => FaceAttrs::EMPTY,
-        };
+    let style = |u: u8| match u {
+        1 => FaceAttrs::UNDERLINE,
+        2 => FaceAttrs::UNDERLINE_DOUBLE,
+        3 => FaceAttrs::UNDERLINE_CURLY,
+        4 => FaceAttrs::UNDERLINE_DOTTED,
+        5 => FaceAttrs::UNDERLINE_DASHED,
+        _ => FaceAttrs::EMPTY,
+    };
+    attrs = attrs | style(underline_first);
+    attrs = attrs | style(underline);
     let c = |c: [u8; 4]| RGBA::new(c[0], c[1], c[2], c[3]);
     Face::new(fg.map(c), bg.map(c), attrs)
 }
 
-fn check_face(fg: Option<[u8; 4]>, bg: Option<[u8; 4]>, flags: u8, underline: u8) -> Outcome {
-    let face = build_face(fg, bg, flags, underline);
-    let ctx = || format!("face fg={fg:?} bg={bg:?} flags={flags:#07b} underline={underline}");
+fn check_face(fg: Option<[u8; 4]>, bg: Option<[u8; 4]>, flags: u8, underline: u8, underline_first: u8) -> Outcome {
+    let face = build_face(fg, bg, flags, underline, underline_first);
+    let ctx = || format!("face fg={fg:?} bg={bg:?} flags={flags:#07b} underline={underline} (combined over an earlier underline style {underline_first})");
     // serde
     let v = stage("face-serde", &ctx, || serde_json::to_value(face))?
         .map_err(|e| Fail::new("face-serde/serialize-error", format!("{}: {e}", ctx())))?;
@@ -1377,7 +1380,7 @@ fn check_bytes(target: Target, bytes: &[u8], mutated: bool) -> Outcome {
 
 pub fn check_case(case: &Case) -> Outcome {
     match case {
-        Case::Face { fg, bg, flags, underline } => check_face(*fg, *bg, *flags, *underline),
+        Case::Face { fg, bg, flags, underline, underline_first } => check_face(*fg, *bg, *flags, *underline, *underline_first),
         Case::Size { height, width } => check_size(*height, *width),
         Case::Chord { text } => check_chord(text),
         Case::Image { height, width, data, view } => check_image(*height, *width, data, view),
@@ -1405,8 +1408,8 @@ fn color_strategy() -> BoxedStrategy<Option<[u8; 4]>> {
 }
 
 fn face_case() -> BoxedStrategy<Case> {
-    (color_strategy(), color_strategy(), 0u8..32, 0u8..6)
-        .prop_map(|(fg, bg, flags, underline)| Case::Face { fg, bg, flags, underline })
+    (color_strategy(), color_strategy(), 0u8..32, 0u8..6, prop_oneof![2 => Just(0u8), 1 => 1u8..6])
+        .prop_map(|(fg, bg, flags, underline, underline_first)| Case::Face { fg, bg, flags, underline, underline_first })
         .boxed()
 }
 
@@ -2141,6 +2144,46 @@ fn text_doc_with(depth: u32, p: Prof, glyph: GS) -> GS {
     prop_oneof![4 => text_string(), 3 => arr, 3 => obj, 2 => glyph_entry, 1 => bad_leaf].boxed()
 }
 
+
+/// text whose cursor is away from the origin (earlier newline, wrapped or partly filled line,
+/// tab) when a glyph arrives whose size is extreme in ONE or both dimensions; everything else
+/// about the document is valid, so it reaches layout and render
+fn text_positioned_glyph() -> GS {
+    let small = || sel(raws(&["0", "1", "2", "3", "19", "20", "21"]));
+    let big = || sel(raws(&[
+        "65535", "4294967295", "4294967296", "4611686018427387904", "9223372036854775807",
+        "9223372036854775808", "18446744073709551613", "18446744073709551614", "18446744073709551615",
+    ]));
+    let dims = prop_oneof![
+        3 => (big(), small()),
+        3 => (small(), big()),
+        1 => (big(), big()),
+    ];
+    let glyph = (dims, any::<bool>(), sel(strs(&["M0,0 L10,0 L10,10Z", "M0,0", ""])), sel(strs(&["", "ab", "\u{4e16}"])), any::<bool>())
+        .prop_map(|((h, w), as_obj, path, fallback, with_fallback)| {
+            let size = if as_obj { J::obj(&[("height", h.j), ("width", w.j)]) } else { J::Arr(vec![h.j, w.j]) };
+            let mut fields = vec![("path", path.j), ("size", size)];
+            if with_fallback {
+                fields.push(("fallback", fallback.j));
+            }
+            G { j: J::obj(&[("glyph", J::obj(&fields))]), ext: 1, odd: 0 }
+        })
+        .boxed();
+    let lead = sel(strs(&["a\n", "\n", "\n\n\n", "abcd", "x\t", "0123456789012345678", "0123456789012345678901", "\u{4e16}\n\u{4e16}", "a\nbc", ""]));
+    let tail = sel(strs(&["", "z", "\n", "tail\n"]));
+    (lead, pvec(glyph, 1..3), tail, any::<bool>())
+        .prop_map(|(lead, glyphs, tail, wraps)| {
+            let ext = glyphs.iter().map(|x| x.ext).sum();
+            let mut items = vec![lead.j];
+            items.extend(glyphs.into_iter().map(|x| x.j));
+            items.push(tail.j);
+            let body = J::Arr(items);
+            let j = if wraps { body } else { J::obj(&[("text", body), ("wraps", J::Bool(false))]) };
+            G { j, ext, odd: 0 }
+        })
+        .boxed()
+}
+
 // ---- view documents
 
 const VIEW_TYPES: &[&str] = &[
@@ -2401,7 +2444,7 @@ fn doc_case() -> BoxedStrategy<Case> {
     });
     let text = (
         chain_of(text_wrap),
-        prop_oneof![1 => text_doc(2, HOSTILE), 2 => text_doc(2, MILD), 2 => text_doc(2, STRESS)],
+        prop_oneof![2 => text_doc(2, HOSTILE), 4 => text_doc(2, MILD), 4 => text_doc(2, STRESS), 1 => text_positioned_glyph()],
     )
         .prop_map(|((chain, e, o), v)| {
         Case::Doc {
@@ -2414,7 +2457,7 @@ fn doc_case() -> BoxedStrategy<Case> {
         }
     });
     // view tree: view layers, optionally ending in a text view with text layers
-    let text_tail = (chain_of(text_wrap), text_doc(1, MILD)).prop_map(|((mut chain, e, o), v)| {
+    let text_tail = (chain_of(text_wrap), prop_oneof![4 => text_doc(1, MILD), 1 => text_positioned_glyph()]).prop_map(|((mut chain, e, o), v)| {
         chain.insert(
             0,
             Wrap {
@@ -2616,7 +2659,7 @@ impl Property for C19 {
             "the harness is built with overflow checks: an arithmetic overflow that would wrap silently in a plain release build is observed as a panic".into(),
             "'laid out and rendered' = View::layout then View::render into a TerminalSurface (a window of a 14x26 sentinel canvas); rasterising glyph cells (TerminalRenderer) is not part of it".into(),
             "an Err returned by layout/render of a deserialised view counts as 'cannot be laid out/rendered'".into(),
-            "documents whose image `size` is [h > 2^24, 0] are screened out: the library accepts them (0 bytes of data expected) and then iterates h times, which never finishes for h ~ 2^62; non-termination cannot be decided by a test (reported separately)".into(),
+            "a case that does not finish within the per-case time limit twice in a row (second try with twice the time in a fresh worker) is reported as a violation (`terminate/case-did-not-finish`): the statement says deserialisation returns a value or an error".into(),
             "key chords with mouse keys, NUMLOCK or characters outside the printable key syntax cannot be written in the textual syntax and are outside the property".into(),
             "repeated keys exist only on the text path (serde_json::Value keeps the last one)".into(),
         ]
